@@ -39,7 +39,11 @@ impl Rule for CramGlobRule {
     }
 
     fn matches(&self, line: &[u8]) -> bool {
-        self.1.is_match(line.trim_newlines())
+        // the wildcards stand for characters: bytes that do not decode are
+        // matched as the replacement character (as the Scrut glob does), so
+        // that `*` also matches lines that are not valid UTF-8
+        self.1
+            .is_match(String::from_utf8_lossy(line.trim_newlines()).as_bytes())
     }
 
     fn unmake(&self) -> (String, Vec<u8>) {
